@@ -13,9 +13,12 @@ Capi/Flags.vos Capi/Flags.vok Capi/Flags.required_vos: Capi/Flags.v Gen/CapiEffe
 Capi/LastError.vo Capi/LastError.glob Capi/LastError.v.beautified Capi/LastError.required_vo: Capi/LastError.v Gen/CapiEffects.vo
 Capi/LastError.vio: Capi/LastError.v Gen/CapiEffects.vio
 Capi/LastError.vos Capi/LastError.vok Capi/LastError.required_vos: Capi/LastError.v Gen/CapiEffects.vos
-Capi/LastErrorProofs.vo Capi/LastErrorProofs.glob Capi/LastErrorProofs.v.beautified Capi/LastErrorProofs.required_vo: Capi/LastErrorProofs.v Gen/CapiEffects.vo Capi/LastError.vo Capi/Flags.vo
-Capi/LastErrorProofs.vio: Capi/LastErrorProofs.v Gen/CapiEffects.vio Capi/LastError.vio Capi/Flags.vio
-Capi/LastErrorProofs.vos Capi/LastErrorProofs.vok Capi/LastErrorProofs.required_vos: Capi/LastErrorProofs.v Gen/CapiEffects.vos Capi/LastError.vos Capi/Flags.vos
+Capi/LastErrorProofs.vo Capi/LastErrorProofs.glob Capi/LastErrorProofs.v.beautified Capi/LastErrorProofs.required_vo: Capi/LastErrorProofs.v Gen/CapiEffects.vo Capi/LastError.vo Capi/Flags.vo Capi/Values.vo
+Capi/LastErrorProofs.vio: Capi/LastErrorProofs.v Gen/CapiEffects.vio Capi/LastError.vio Capi/Flags.vio Capi/Values.vio
+Capi/LastErrorProofs.vos Capi/LastErrorProofs.vok Capi/LastErrorProofs.required_vos: Capi/LastErrorProofs.v Gen/CapiEffects.vos Capi/LastError.vos Capi/Flags.vos Capi/Values.vos
+Capi/Values.vo Capi/Values.glob Capi/Values.v.beautified Capi/Values.required_vo: Capi/Values.v Gen/CapiEffects.vo Capi/Flags.vo
+Capi/Values.vio: Capi/Values.v Gen/CapiEffects.vio Capi/Flags.vio
+Capi/Values.vos Capi/Values.vok Capi/Values.required_vos: Capi/Values.v Gen/CapiEffects.vos Capi/Flags.vos
 Cli/Walk.vo Cli/Walk.glob Cli/Walk.v.beautified Cli/Walk.required_vo: Cli/Walk.v 
 Cli/Walk.vio: Cli/Walk.v 
 Cli/Walk.vos Cli/Walk.vok Cli/Walk.required_vos: Cli/Walk.v 
@@ -88,9 +91,18 @@ Conc/InterleaveCheck.vos Conc/InterleaveCheck.vok Conc/InterleaveCheck.required_
 Conc/InterleaveProofs.vo Conc/InterleaveProofs.glob Conc/InterleaveProofs.v.beautified Conc/InterleaveProofs.required_vo: Conc/InterleaveProofs.v Gen/ConcGen.vo Conc/Interleave.vo
 Conc/InterleaveProofs.vio: Conc/InterleaveProofs.v Gen/ConcGen.vio Conc/Interleave.vio
 Conc/InterleaveProofs.vos Conc/InterleaveProofs.vok Conc/InterleaveProofs.required_vos: Conc/InterleaveProofs.v Gen/ConcGen.vos Conc/Interleave.vos
-Cond/Check.vo Cond/Check.glob Cond/Check.v.beautified Cond/Check.required_vo: Cond/Check.v Cond/Syntax.vo Cond/Sem.vo Cond/RuleSet.vo
-Cond/Check.vio: Cond/Check.v Cond/Syntax.vio Cond/Sem.vio Cond/RuleSet.vio
-Cond/Check.vos Cond/Check.vok Cond/Check.required_vos: Cond/Check.v Cond/Syntax.vos Cond/Sem.vos Cond/RuleSet.vos
+Cond/Check.vo Cond/Check.glob Cond/Check.v.beautified Cond/Check.required_vo: Cond/Check.v Cond/Syntax.vo Cond/Sem.vo Cond/Quirks.vo Cond/RuleSet.vo Cond/Machine.vo Cond/Emit.vo
+Cond/Check.vio: Cond/Check.v Cond/Syntax.vio Cond/Sem.vio Cond/Quirks.vio Cond/RuleSet.vio Cond/Machine.vio Cond/Emit.vio
+Cond/Check.vos Cond/Check.vok Cond/Check.required_vos: Cond/Check.v Cond/Syntax.vos Cond/Sem.vos Cond/Quirks.vos Cond/RuleSet.vos Cond/Machine.vos Cond/Emit.vos
+Cond/Emit.vo Cond/Emit.glob Cond/Emit.v.beautified Cond/Emit.required_vo: Cond/Emit.v Cond/Syntax.vo Cond/Sem.vo Cond/Quirks.vo Cond/Machine.vo
+Cond/Emit.vio: Cond/Emit.v Cond/Syntax.vio Cond/Sem.vio Cond/Quirks.vio Cond/Machine.vio
+Cond/Emit.vos Cond/Emit.vok Cond/Emit.required_vos: Cond/Emit.v Cond/Syntax.vos Cond/Sem.vos Cond/Quirks.vos Cond/Machine.vos
+Cond/EmitBase.vo Cond/EmitBase.glob Cond/EmitBase.v.beautified Cond/EmitBase.required_vo: Cond/EmitBase.v Cond/Syntax.vo Cond/Sem.vo Cond/Quirks.vo Cond/Machine.vo Cond/MachineProofs.vo Cond/Emit.vo
+Cond/EmitBase.vio: Cond/EmitBase.v Cond/Syntax.vio Cond/Sem.vio Cond/Quirks.vio Cond/Machine.vio Cond/MachineProofs.vio Cond/Emit.vio
+Cond/EmitBase.vos Cond/EmitBase.vok Cond/EmitBase.required_vos: Cond/EmitBase.v Cond/Syntax.vos Cond/Sem.vos Cond/Quirks.vos Cond/Machine.vos Cond/MachineProofs.vos Cond/Emit.vos
+Cond/EmitProofs.vo Cond/EmitProofs.glob Cond/EmitProofs.v.beautified Cond/EmitProofs.required_vo: Cond/EmitProofs.v Cond/Syntax.vo Cond/Sem.vo Cond/SemProofs.vo Cond/Quirks.vo Cond/QuirksProofs.vo Cond/Machine.vo Cond/MachineProofs.vo Cond/Emit.vo Cond/EmitBase.vo
+Cond/EmitProofs.vio: Cond/EmitProofs.v Cond/Syntax.vio Cond/Sem.vio Cond/SemProofs.vio Cond/Quirks.vio Cond/QuirksProofs.vio Cond/Machine.vio Cond/MachineProofs.vio Cond/Emit.vio Cond/EmitBase.vio
+Cond/EmitProofs.vos Cond/EmitProofs.vok Cond/EmitProofs.required_vos: Cond/EmitProofs.v Cond/Syntax.vos Cond/Sem.vos Cond/SemProofs.vos Cond/Quirks.vos Cond/QuirksProofs.vos Cond/Machine.vos Cond/MachineProofs.vos Cond/Emit.vos Cond/EmitBase.vos
 Cond/HostCheck.vo Cond/HostCheck.glob Cond/HostCheck.v.beautified Cond/HostCheck.required_vo: Cond/HostCheck.v Cond/HostTypes.vo Cond/HostModel.vo Cond/Traps.vo Gen/HostFns.vo
 Cond/HostCheck.vio: Cond/HostCheck.v Cond/HostTypes.vio Cond/HostModel.vio Cond/Traps.vio Gen/HostFns.vio
 Cond/HostCheck.vos Cond/HostCheck.vok Cond/HostCheck.required_vos: Cond/HostCheck.v Cond/HostTypes.vos Cond/HostModel.vos Cond/Traps.vos Gen/HostFns.vos
@@ -115,6 +127,12 @@ Cond/Independence.vos Cond/Independence.vok Cond/Independence.required_vos: Cond
 Cond/IndependenceProofs.vo Cond/IndependenceProofs.glob Cond/IndependenceProofs.v.beautified Cond/IndependenceProofs.required_vo: Cond/IndependenceProofs.v Cond/Syntax.vo Cond/Sem.vo Cond/Rename.vo Cond/SemProofs.vo Cond/Independence.vo
 Cond/IndependenceProofs.vio: Cond/IndependenceProofs.v Cond/Syntax.vio Cond/Sem.vio Cond/Rename.vio Cond/SemProofs.vio Cond/Independence.vio
 Cond/IndependenceProofs.vos Cond/IndependenceProofs.vok Cond/IndependenceProofs.required_vos: Cond/IndependenceProofs.v Cond/Syntax.vos Cond/Sem.vos Cond/Rename.vos Cond/SemProofs.vos Cond/Independence.vos
+Cond/Machine.vo Cond/Machine.glob Cond/Machine.v.beautified Cond/Machine.required_vo: Cond/Machine.v 
+Cond/Machine.vio: Cond/Machine.v 
+Cond/Machine.vos Cond/Machine.vok Cond/Machine.required_vos: Cond/Machine.v 
+Cond/MachineProofs.vo Cond/MachineProofs.glob Cond/MachineProofs.v.beautified Cond/MachineProofs.required_vo: Cond/MachineProofs.v Cond/Machine.vo
+Cond/MachineProofs.vio: Cond/MachineProofs.v Cond/Machine.vio
+Cond/MachineProofs.vos Cond/MachineProofs.vok Cond/MachineProofs.required_vos: Cond/MachineProofs.v Cond/Machine.vos
 Cond/Prec.vo Cond/Prec.glob Cond/Prec.v.beautified Cond/Prec.required_vo: Cond/Prec.v Gen/BindingPower.vo Gen/DocPrecedence.vo
 Cond/Prec.vio: Cond/Prec.v Gen/BindingPower.vio Gen/DocPrecedence.vio
 Cond/Prec.vos Cond/Prec.vok Cond/Prec.required_vos: Cond/Prec.v Gen/BindingPower.vos Gen/DocPrecedence.vos
@@ -172,18 +190,30 @@ Fmt/Bubble.vos Fmt/Bubble.vok Fmt/Bubble.required_vos: Fmt/Bubble.v Fmt/Tokens.v
 Fmt/BubbleProofs.vo Fmt/BubbleProofs.glob Fmt/BubbleProofs.v.beautified Fmt/BubbleProofs.required_vo: Fmt/BubbleProofs.v Fmt/Tokens.vo Gen/FmtCats.vo Fmt/Processor.vo Fmt/ProcessorProofs.vo Fmt/Bubble.vo
 Fmt/BubbleProofs.vio: Fmt/BubbleProofs.v Fmt/Tokens.vio Gen/FmtCats.vio Fmt/Processor.vio Fmt/ProcessorProofs.vio Fmt/Bubble.vio
 Fmt/BubbleProofs.vos Fmt/BubbleProofs.vok Fmt/BubbleProofs.required_vos: Fmt/BubbleProofs.v Fmt/Tokens.vos Gen/FmtCats.vos Fmt/Processor.vos Fmt/ProcessorProofs.vos Fmt/Bubble.vos
-Fmt/FmtCheck.vo Fmt/FmtCheck.glob Fmt/FmtCheck.v.beautified Fmt/FmtCheck.required_vo: Fmt/FmtCheck.v Fmt/Tokens.vo Gen/FmtCats.vo Fmt/Processor.vo Fmt/Bubble.vo
-Fmt/FmtCheck.vio: Fmt/FmtCheck.v Fmt/Tokens.vio Gen/FmtCats.vio Fmt/Processor.vio Fmt/Bubble.vio
-Fmt/FmtCheck.vos Fmt/FmtCheck.vok Fmt/FmtCheck.required_vos: Fmt/FmtCheck.v Fmt/Tokens.vos Gen/FmtCats.vos Fmt/Processor.vos Fmt/Bubble.vos
+Fmt/FmtCheck.vo Fmt/FmtCheck.glob Fmt/FmtCheck.v.beautified Fmt/FmtCheck.required_vo: Fmt/FmtCheck.v Fmt/Tokens.vo Gen/FmtCats.vo Fmt/Processor.vo Fmt/Bubble.vo Fmt/Stages.vo
+Fmt/FmtCheck.vio: Fmt/FmtCheck.v Fmt/Tokens.vio Gen/FmtCats.vio Fmt/Processor.vio Fmt/Bubble.vio Fmt/Stages.vio
+Fmt/FmtCheck.vos Fmt/FmtCheck.vok Fmt/FmtCheck.required_vos: Fmt/FmtCheck.v Fmt/Tokens.vos Gen/FmtCats.vos Fmt/Processor.vos Fmt/Bubble.vos Fmt/Stages.vos
 Fmt/FmtRulesProofs.vo Fmt/FmtRulesProofs.glob Fmt/FmtRulesProofs.v.beautified Fmt/FmtRulesProofs.required_vo: Fmt/FmtRulesProofs.v Fmt/Tokens.vo Gen/FmtCats.vo Fmt/Processor.vo Fmt/ProcessorProofs.vo Fmt/Bubble.vo Fmt/BubbleProofs.vo Gen/FmtRules.vo
 Fmt/FmtRulesProofs.vio: Fmt/FmtRulesProofs.v Fmt/Tokens.vio Gen/FmtCats.vio Fmt/Processor.vio Fmt/ProcessorProofs.vio Fmt/Bubble.vio Fmt/BubbleProofs.vio Gen/FmtRules.vio
 Fmt/FmtRulesProofs.vos Fmt/FmtRulesProofs.vok Fmt/FmtRulesProofs.required_vos: Fmt/FmtRulesProofs.v Fmt/Tokens.vos Gen/FmtCats.vos Fmt/Processor.vos Fmt/ProcessorProofs.vos Fmt/Bubble.vos Fmt/BubbleProofs.vos Gen/FmtRules.vos
+Fmt/Pipeline.vo Fmt/Pipeline.glob Fmt/Pipeline.v.beautified Fmt/Pipeline.required_vo: Fmt/Pipeline.v 
+Fmt/Pipeline.vio: Fmt/Pipeline.v 
+Fmt/Pipeline.vos Fmt/Pipeline.vok Fmt/Pipeline.required_vos: Fmt/Pipeline.v 
+Fmt/PipelineProofs.vo Fmt/PipelineProofs.glob Fmt/PipelineProofs.v.beautified Fmt/PipelineProofs.required_vo: Fmt/PipelineProofs.v Fmt/Tokens.vo Gen/FmtCats.vo Fmt/Processor.vo Fmt/ProcessorProofs.vo Fmt/Bubble.vo Fmt/BubbleProofs.vo Fmt/Stages.vo Fmt/StagesProofs.vo Fmt/Pipeline.vo Gen/FmtRules.vo Fmt/FmtRulesProofs.vo
+Fmt/PipelineProofs.vio: Fmt/PipelineProofs.v Fmt/Tokens.vio Gen/FmtCats.vio Fmt/Processor.vio Fmt/ProcessorProofs.vio Fmt/Bubble.vio Fmt/BubbleProofs.vio Fmt/Stages.vio Fmt/StagesProofs.vio Fmt/Pipeline.vio Gen/FmtRules.vio Fmt/FmtRulesProofs.vio
+Fmt/PipelineProofs.vos Fmt/PipelineProofs.vok Fmt/PipelineProofs.required_vos: Fmt/PipelineProofs.v Fmt/Tokens.vos Gen/FmtCats.vos Fmt/Processor.vos Fmt/ProcessorProofs.vos Fmt/Bubble.vos Fmt/BubbleProofs.vos Fmt/Stages.vos Fmt/StagesProofs.vos Fmt/Pipeline.vos Gen/FmtRules.vos Fmt/FmtRulesProofs.vos
 Fmt/Processor.vo Fmt/Processor.glob Fmt/Processor.v.beautified Fmt/Processor.required_vo: Fmt/Processor.v Fmt/Tokens.vo Gen/FmtCats.vo
 Fmt/Processor.vio: Fmt/Processor.v Fmt/Tokens.vio Gen/FmtCats.vio
 Fmt/Processor.vos Fmt/Processor.vok Fmt/Processor.required_vos: Fmt/Processor.v Fmt/Tokens.vos Gen/FmtCats.vos
 Fmt/ProcessorProofs.vo Fmt/ProcessorProofs.glob Fmt/ProcessorProofs.v.beautified Fmt/ProcessorProofs.required_vo: Fmt/ProcessorProofs.v Fmt/Tokens.vo Gen/FmtCats.vo Fmt/Processor.vo
 Fmt/ProcessorProofs.vio: Fmt/ProcessorProofs.v Fmt/Tokens.vio Gen/FmtCats.vio Fmt/Processor.vio
 Fmt/ProcessorProofs.vos Fmt/ProcessorProofs.vok Fmt/ProcessorProofs.required_vos: Fmt/ProcessorProofs.v Fmt/Tokens.vos Gen/FmtCats.vos Fmt/Processor.vos
+Fmt/Stages.vo Fmt/Stages.glob Fmt/Stages.v.beautified Fmt/Stages.required_vo: Fmt/Stages.v Fmt/Tokens.vo Gen/FmtCats.vo Fmt/Processor.vo
+Fmt/Stages.vio: Fmt/Stages.v Fmt/Tokens.vio Gen/FmtCats.vio Fmt/Processor.vio
+Fmt/Stages.vos Fmt/Stages.vok Fmt/Stages.required_vos: Fmt/Stages.v Fmt/Tokens.vos Gen/FmtCats.vos Fmt/Processor.vos
+Fmt/StagesProofs.vo Fmt/StagesProofs.glob Fmt/StagesProofs.v.beautified Fmt/StagesProofs.required_vo: Fmt/StagesProofs.v Fmt/Tokens.vo Gen/FmtCats.vo Fmt/Processor.vo Fmt/ProcessorProofs.vo Fmt/Stages.vo
+Fmt/StagesProofs.vio: Fmt/StagesProofs.v Fmt/Tokens.vio Gen/FmtCats.vio Fmt/Processor.vio Fmt/ProcessorProofs.vio Fmt/Stages.vio
+Fmt/StagesProofs.vos Fmt/StagesProofs.vok Fmt/StagesProofs.required_vos: Fmt/StagesProofs.v Fmt/Tokens.vos Gen/FmtCats.vos Fmt/Processor.vos Fmt/ProcessorProofs.vos Fmt/Stages.vos
 Fmt/Tokens.vo Fmt/Tokens.glob Fmt/Tokens.v.beautified Fmt/Tokens.required_vo: Fmt/Tokens.v 
 Fmt/Tokens.vio: Fmt/Tokens.v 
 Fmt/Tokens.vos Fmt/Tokens.vok Fmt/Tokens.required_vos: Fmt/Tokens.v 
@@ -217,9 +247,9 @@ Gen/FixApply.vos Gen/FixApply.vok Gen/FixApply.required_vos: Gen/FixApply.v
 Gen/FmtCats.vo Gen/FmtCats.glob Gen/FmtCats.v.beautified Gen/FmtCats.required_vo: Gen/FmtCats.v Fmt/Tokens.vo
 Gen/FmtCats.vio: Gen/FmtCats.v Fmt/Tokens.vio
 Gen/FmtCats.vos Gen/FmtCats.vok Gen/FmtCats.required_vos: Gen/FmtCats.v Fmt/Tokens.vos
-Gen/FmtRules.vo Gen/FmtRules.glob Gen/FmtRules.v.beautified Gen/FmtRules.required_vo: Gen/FmtRules.v Fmt/Tokens.vo Gen/FmtCats.vo Fmt/Processor.vo Fmt/Bubble.vo
-Gen/FmtRules.vio: Gen/FmtRules.v Fmt/Tokens.vio Gen/FmtCats.vio Fmt/Processor.vio Fmt/Bubble.vio
-Gen/FmtRules.vos Gen/FmtRules.vok Gen/FmtRules.required_vos: Gen/FmtRules.v Fmt/Tokens.vos Gen/FmtCats.vos Fmt/Processor.vos Fmt/Bubble.vos
+Gen/FmtRules.vo Gen/FmtRules.glob Gen/FmtRules.v.beautified Gen/FmtRules.required_vo: Gen/FmtRules.v Fmt/Tokens.vo Gen/FmtCats.vo Fmt/Processor.vo Fmt/Bubble.vo Fmt/Pipeline.vo
+Gen/FmtRules.vio: Gen/FmtRules.v Fmt/Tokens.vio Gen/FmtCats.vio Fmt/Processor.vio Fmt/Bubble.vio Fmt/Pipeline.vio
+Gen/FmtRules.vos Gen/FmtRules.vok Gen/FmtRules.required_vos: Gen/FmtRules.v Fmt/Tokens.vos Gen/FmtCats.vos Fmt/Processor.vos Fmt/Bubble.vos Fmt/Pipeline.vos
 Gen/FoldGen.vo Gen/FoldGen.glob Gen/FoldGen.v.beautified Gen/FoldGen.required_vo: Gen/FoldGen.v 
 Gen/FoldGen.vio: Gen/FoldGen.v 
 Gen/FoldGen.vos Gen/FoldGen.vok Gen/FoldGen.required_vos: Gen/FoldGen.v 
@@ -238,12 +268,18 @@ Gen/PatConsts.vos Gen/PatConsts.vok Gen/PatConsts.required_vos: Gen/PatConsts.v
 Gen/PatternIdentity.vo Gen/PatternIdentity.glob Gen/PatternIdentity.v.beautified Gen/PatternIdentity.required_vo: Gen/PatternIdentity.v 
 Gen/PatternIdentity.vio: Gen/PatternIdentity.v 
 Gen/PatternIdentity.vos Gen/PatternIdentity.vok Gen/PatternIdentity.required_vos: Gen/PatternIdentity.v 
+Gen/ProtoSchema.vo Gen/ProtoSchema.glob Gen/ProtoSchema.v.beautified Gen/ProtoSchema.required_vo: Gen/ProtoSchema.v Types/StructModel.vo
+Gen/ProtoSchema.vio: Gen/ProtoSchema.v Types/StructModel.vio
+Gen/ProtoSchema.vos Gen/ProtoSchema.vok Gen/ProtoSchema.required_vos: Gen/ProtoSchema.v Types/StructModel.vos
 Gen/ScanState.vo Gen/ScanState.glob Gen/ScanState.v.beautified Gen/ScanState.required_vo: Gen/ScanState.v 
 Gen/ScanState.vio: Gen/ScanState.v 
 Gen/ScanState.vos Gen/ScanState.vok Gen/ScanState.required_vos: Gen/ScanState.v 
 Gen/SnapshotGen.vo Gen/SnapshotGen.glob Gen/SnapshotGen.v.beautified Gen/SnapshotGen.required_vo: Gen/SnapshotGen.v 
 Gen/SnapshotGen.vio: Gen/SnapshotGen.v 
 Gen/SnapshotGen.vos Gen/SnapshotGen.vok Gen/SnapshotGen.required_vos: Gen/SnapshotGen.v 
+Gen/TokenizerGen.vo Gen/TokenizerGen.glob Gen/TokenizerGen.v.beautified Gen/TokenizerGen.required_vo: Gen/TokenizerGen.v Parser/Tokenizer.vo Gen/Grammar.vo
+Gen/TokenizerGen.vio: Gen/TokenizerGen.v Parser/Tokenizer.vio Gen/Grammar.vio
+Gen/TokenizerGen.vos Gen/TokenizerGen.vok Gen/TokenizerGen.required_vos: Gen/TokenizerGen.v Parser/Tokenizer.vos Gen/Grammar.vos
 Gen/TrackingGen.vo Gen/TrackingGen.glob Gen/TrackingGen.v.beautified Gen/TrackingGen.required_vo: Gen/TrackingGen.v Scanner/PrivIter.vo Scanner/Tracking.vo
 Gen/TrackingGen.vio: Gen/TrackingGen.v Scanner/PrivIter.vio Scanner/Tracking.vio
 Gen/TrackingGen.vos Gen/TrackingGen.vok Gen/TrackingGen.required_vos: Gen/TrackingGen.v Scanner/PrivIter.vos Scanner/Tracking.vos
@@ -256,15 +292,33 @@ Modules/Caps.vos Modules/Caps.vok Modules/Caps.required_vos: Modules/Caps.v Gen/
 Modules/CapsProofs.vo Modules/CapsProofs.glob Modules/CapsProofs.v.beautified Modules/CapsProofs.required_vo: Modules/CapsProofs.v Gen/ModCaps.vo Modules/Caps.vo
 Modules/CapsProofs.vio: Modules/CapsProofs.v Gen/ModCaps.vio Modules/Caps.vio
 Modules/CapsProofs.vos Modules/CapsProofs.vok Modules/CapsProofs.required_vos: Modules/CapsProofs.v Gen/ModCaps.vos Modules/Caps.vos
-Modules/ModCheck.vo Modules/ModCheck.glob Modules/ModCheck.v.beautified Modules/ModCheck.required_vo: Modules/ModCheck.v Modules/Rva.vo
-Modules/ModCheck.vio: Modules/ModCheck.v Modules/Rva.vio
-Modules/ModCheck.vos Modules/ModCheck.vok Modules/ModCheck.required_vos: Modules/ModCheck.v Modules/Rva.vos
+Modules/Cores.vo Modules/Cores.glob Modules/Cores.v.beautified Modules/Cores.required_vo: Modules/Cores.v 
+Modules/Cores.vio: Modules/Cores.v 
+Modules/Cores.vos Modules/Cores.vok Modules/Cores.required_vos: Modules/Cores.v 
+Modules/CoresProofs.vo Modules/CoresProofs.glob Modules/CoresProofs.v.beautified Modules/CoresProofs.required_vo: Modules/CoresProofs.v Modules/Cores.vo
+Modules/CoresProofs.vio: Modules/CoresProofs.v Modules/Cores.vio
+Modules/CoresProofs.vos Modules/CoresProofs.vok Modules/CoresProofs.required_vos: Modules/CoresProofs.v Modules/Cores.vos
+Modules/Leb.vo Modules/Leb.glob Modules/Leb.v.beautified Modules/Leb.required_vo: Modules/Leb.v 
+Modules/Leb.vio: Modules/Leb.v 
+Modules/Leb.vos Modules/Leb.vok Modules/Leb.required_vos: Modules/Leb.v 
+Modules/LebProofs.vo Modules/LebProofs.glob Modules/LebProofs.v.beautified Modules/LebProofs.required_vo: Modules/LebProofs.v Modules/Leb.vo
+Modules/LebProofs.vio: Modules/LebProofs.v Modules/Leb.vio
+Modules/LebProofs.vos Modules/LebProofs.vok Modules/LebProofs.required_vos: Modules/LebProofs.v Modules/Leb.vos
+Modules/ModCheck.vo Modules/ModCheck.glob Modules/ModCheck.v.beautified Modules/ModCheck.required_vo: Modules/ModCheck.v Modules/Rva.vo Modules/Leb.vo Modules/VarInt.vo Modules/Cores.vo
+Modules/ModCheck.vio: Modules/ModCheck.v Modules/Rva.vio Modules/Leb.vio Modules/VarInt.vio Modules/Cores.vio
+Modules/ModCheck.vos Modules/ModCheck.vok Modules/ModCheck.required_vos: Modules/ModCheck.v Modules/Rva.vos Modules/Leb.vos Modules/VarInt.vos Modules/Cores.vos
 Modules/Rva.vo Modules/Rva.glob Modules/Rva.v.beautified Modules/Rva.required_vo: Modules/Rva.v 
 Modules/Rva.vio: Modules/Rva.v 
 Modules/Rva.vos Modules/Rva.vok Modules/Rva.required_vos: Modules/Rva.v 
 Modules/RvaProofs.vo Modules/RvaProofs.glob Modules/RvaProofs.v.beautified Modules/RvaProofs.required_vo: Modules/RvaProofs.v Modules/Rva.vo
 Modules/RvaProofs.vio: Modules/RvaProofs.v Modules/Rva.vio
 Modules/RvaProofs.vos Modules/RvaProofs.vok Modules/RvaProofs.required_vos: Modules/RvaProofs.v Modules/Rva.vos
+Modules/VarInt.vo Modules/VarInt.glob Modules/VarInt.v.beautified Modules/VarInt.required_vo: Modules/VarInt.v 
+Modules/VarInt.vio: Modules/VarInt.v 
+Modules/VarInt.vos Modules/VarInt.vok Modules/VarInt.required_vos: Modules/VarInt.v 
+Modules/VarIntProofs.vo Modules/VarIntProofs.glob Modules/VarIntProofs.v.beautified Modules/VarIntProofs.required_vo: Modules/VarIntProofs.v Modules/VarInt.vo
+Modules/VarIntProofs.vio: Modules/VarIntProofs.v Modules/VarInt.vio
+Modules/VarIntProofs.vos Modules/VarIntProofs.vok Modules/VarIntProofs.required_vos: Modules/VarIntProofs.v Modules/VarInt.vos
 Opt/Bounds.vo Opt/Bounds.glob Opt/Bounds.v.beautified Opt/Bounds.required_vo: Opt/Bounds.v Gen/BoundsGen.vo
 Opt/Bounds.vio: Opt/Bounds.v Gen/BoundsGen.vio
 Opt/Bounds.vos Opt/Bounds.vok Opt/Bounds.required_vos: Opt/Bounds.v Gen/BoundsGen.vos
@@ -304,6 +358,21 @@ Parser/Position.vos Parser/Position.vok Parser/Position.required_vos: Parser/Pos
 Parser/PositionProofs.vo Parser/PositionProofs.glob Parser/PositionProofs.v.beautified Parser/PositionProofs.required_vo: Parser/PositionProofs.v Parser/Position.vo
 Parser/PositionProofs.vio: Parser/PositionProofs.v Parser/Position.vio
 Parser/PositionProofs.vos Parser/PositionProofs.vok Parser/PositionProofs.required_vos: Parser/PositionProofs.v Parser/Position.vos
+Parser/Tokenizer.vo Parser/Tokenizer.glob Parser/Tokenizer.v.beautified Parser/Tokenizer.required_vo: Parser/Tokenizer.v Base/Utf8.vo
+Parser/Tokenizer.vio: Parser/Tokenizer.v Base/Utf8.vio
+Parser/Tokenizer.vos Parser/Tokenizer.vok Parser/Tokenizer.required_vos: Parser/Tokenizer.v Base/Utf8.vos
+Parser/TokenizerCheck.vo Parser/TokenizerCheck.glob Parser/TokenizerCheck.v.beautified Parser/TokenizerCheck.required_vo: Parser/TokenizerCheck.v Parser/Machine.vo Parser/Tokenizer.vo Gen/Grammar.vo Gen/TokenizerGen.vo Parser/ParserCheck.vo
+Parser/TokenizerCheck.vio: Parser/TokenizerCheck.v Parser/Machine.vio Parser/Tokenizer.vio Gen/Grammar.vio Gen/TokenizerGen.vio Parser/ParserCheck.vio
+Parser/TokenizerCheck.vos Parser/TokenizerCheck.vok Parser/TokenizerCheck.required_vos: Parser/TokenizerCheck.v Parser/Machine.vos Parser/Tokenizer.vos Gen/Grammar.vos Gen/TokenizerGen.vos Parser/ParserCheck.vos
+Parser/TokenizerInst.vo Parser/TokenizerInst.glob Parser/TokenizerInst.v.beautified Parser/TokenizerInst.required_vo: Parser/TokenizerInst.v Parser/Tokenizer.vo Parser/TokenizerProofs.vo Gen/Grammar.vo Gen/TokenizerGen.vo
+Parser/TokenizerInst.vio: Parser/TokenizerInst.v Parser/Tokenizer.vio Parser/TokenizerProofs.vio Gen/Grammar.vio Gen/TokenizerGen.vio
+Parser/TokenizerInst.vos Parser/TokenizerInst.vok Parser/TokenizerInst.required_vos: Parser/TokenizerInst.v Parser/Tokenizer.vos Parser/TokenizerProofs.vos Gen/Grammar.vos Gen/TokenizerGen.vos
+Parser/TokenizerProofs.vo Parser/TokenizerProofs.glob Parser/TokenizerProofs.v.beautified Parser/TokenizerProofs.required_vo: Parser/TokenizerProofs.v Base/Utf8.vo Parser/Tokenizer.vo
+Parser/TokenizerProofs.vio: Parser/TokenizerProofs.v Base/Utf8.vio Parser/Tokenizer.vio
+Parser/TokenizerProofs.vos Parser/TokenizerProofs.vok Parser/TokenizerProofs.required_vos: Parser/TokenizerProofs.v Base/Utf8.vos Parser/Tokenizer.vos
+Pat/Atoms.vo Pat/Atoms.glob Pat/Atoms.v.beautified Pat/Atoms.required_vo: Pat/Atoms.v Pat/Syntax.vo Pat/Sem.vo Pat/Matcher.vo Pat/Modifiers.vo Pat/Base64.vo
+Pat/Atoms.vio: Pat/Atoms.v Pat/Syntax.vio Pat/Sem.vio Pat/Matcher.vio Pat/Modifiers.vio Pat/Base64.vio
+Pat/Atoms.vos Pat/Atoms.vok Pat/Atoms.required_vos: Pat/Atoms.v Pat/Syntax.vos Pat/Sem.vos Pat/Matcher.vos Pat/Modifiers.vos Pat/Base64.vos
 Pat/Base64.vo Pat/Base64.glob Pat/Base64.v.beautified Pat/Base64.required_vo: Pat/Base64.v Pat/Syntax.vo Pat/Modifiers.vo
 Pat/Base64.vio: Pat/Base64.v Pat/Syntax.vio Pat/Modifiers.vio
 Pat/Base64.vos Pat/Base64.vok Pat/Base64.required_vos: Pat/Base64.v Pat/Syntax.vos Pat/Modifiers.vos
@@ -319,9 +388,9 @@ Pat/BlocksCheck.vos Pat/BlocksCheck.vok Pat/BlocksCheck.required_vos: Pat/Blocks
 Pat/BlocksProofs.vo Pat/BlocksProofs.glob Pat/BlocksProofs.v.beautified Pat/BlocksProofs.required_vo: Pat/BlocksProofs.v Gen/ScanState.vo Pat/Blocks.vo
 Pat/BlocksProofs.vio: Pat/BlocksProofs.v Gen/ScanState.vio Pat/Blocks.vio
 Pat/BlocksProofs.vos Pat/BlocksProofs.vok Pat/BlocksProofs.required_vos: Pat/BlocksProofs.v Gen/ScanState.vos Pat/Blocks.vos
-Pat/C01Check.vo Pat/C01Check.glob Pat/C01Check.v.beautified Pat/C01Check.required_vo: Pat/C01Check.v Gen/PatConsts.vo Pat/Syntax.vo Pat/Sem.vo Pat/Matcher.vo Pat/Modifiers.vo Pat/MatchList.vo Pat/Base64.vo
-Pat/C01Check.vio: Pat/C01Check.v Gen/PatConsts.vio Pat/Syntax.vio Pat/Sem.vio Pat/Matcher.vio Pat/Modifiers.vio Pat/MatchList.vio Pat/Base64.vio
-Pat/C01Check.vos Pat/C01Check.vok Pat/C01Check.required_vos: Pat/C01Check.v Gen/PatConsts.vos Pat/Syntax.vos Pat/Sem.vos Pat/Matcher.vos Pat/Modifiers.vos Pat/MatchList.vos Pat/Base64.vos
+Pat/C01Check.vo Pat/C01Check.glob Pat/C01Check.v.beautified Pat/C01Check.required_vo: Pat/C01Check.v Gen/PatConsts.vo Pat/Syntax.vo Pat/Sem.vo Pat/Matcher.vo Pat/Modifiers.vo Pat/MatchList.vo Pat/Base64.vo Pat/Atoms.vo Pat/Pipeline.vo
+Pat/C01Check.vio: Pat/C01Check.v Gen/PatConsts.vio Pat/Syntax.vio Pat/Sem.vio Pat/Matcher.vio Pat/Modifiers.vio Pat/MatchList.vio Pat/Base64.vio Pat/Atoms.vio Pat/Pipeline.vio
+Pat/C01Check.vos Pat/C01Check.vok Pat/C01Check.required_vos: Pat/C01Check.v Gen/PatConsts.vos Pat/Syntax.vos Pat/Sem.vos Pat/Matcher.vos Pat/Modifiers.vos Pat/MatchList.vos Pat/Base64.vos Pat/Atoms.vos Pat/Pipeline.vos
 Pat/C01CheckProofs.vo Pat/C01CheckProofs.glob Pat/C01CheckProofs.v.beautified Pat/C01CheckProofs.required_vo: Pat/C01CheckProofs.v Gen/PatConsts.vo Pat/Syntax.vo Pat/Sem.vo Pat/Matcher.vo Pat/MatcherProofs.vo Pat/Modifiers.vo Pat/ModifiersProofs.vo Pat/MatchList.vo Pat/C01Check.vo
 Pat/C01CheckProofs.vio: Pat/C01CheckProofs.v Gen/PatConsts.vio Pat/Syntax.vio Pat/Sem.vio Pat/Matcher.vio Pat/MatcherProofs.vio Pat/Modifiers.vio Pat/ModifiersProofs.vio Pat/MatchList.vio Pat/C01Check.vio
 Pat/C01CheckProofs.vos Pat/C01CheckProofs.vok Pat/C01CheckProofs.required_vos: Pat/C01CheckProofs.v Gen/PatConsts.vos Pat/Syntax.vos Pat/Sem.vos Pat/Matcher.vos Pat/MatcherProofs.vos Pat/Modifiers.vos Pat/ModifiersProofs.vos Pat/MatchList.vos Pat/C01Check.vos
@@ -349,6 +418,12 @@ Pat/Modifiers.vos Pat/Modifiers.vok Pat/Modifiers.required_vos: Pat/Modifiers.v 
 Pat/ModifiersProofs.vo Pat/ModifiersProofs.glob Pat/ModifiersProofs.v.beautified Pat/ModifiersProofs.required_vo: Pat/ModifiersProofs.v Pat/Syntax.vo Pat/Sem.vo Pat/Matcher.vo Pat/MatcherProofs.vo Pat/Modifiers.vo
 Pat/ModifiersProofs.vio: Pat/ModifiersProofs.v Pat/Syntax.vio Pat/Sem.vio Pat/Matcher.vio Pat/MatcherProofs.vio Pat/Modifiers.vio
 Pat/ModifiersProofs.vos Pat/ModifiersProofs.vok Pat/ModifiersProofs.required_vos: Pat/ModifiersProofs.v Pat/Syntax.vos Pat/Sem.vos Pat/Matcher.vos Pat/MatcherProofs.vos Pat/Modifiers.vos
+Pat/Pipeline.vo Pat/Pipeline.glob Pat/Pipeline.v.beautified Pat/Pipeline.required_vo: Pat/Pipeline.v Pat/Syntax.vo Pat/Sem.vo Pat/Matcher.vo Pat/Modifiers.vo Pat/Base64.vo Pat/MatchList.vo Pat/Atoms.vo
+Pat/Pipeline.vio: Pat/Pipeline.v Pat/Syntax.vio Pat/Sem.vio Pat/Matcher.vio Pat/Modifiers.vio Pat/Base64.vio Pat/MatchList.vio Pat/Atoms.vio
+Pat/Pipeline.vos Pat/Pipeline.vok Pat/Pipeline.required_vos: Pat/Pipeline.v Pat/Syntax.vos Pat/Sem.vos Pat/Matcher.vos Pat/Modifiers.vos Pat/Base64.vos Pat/MatchList.vos Pat/Atoms.vos
+Pat/PipelineProofs.vo Pat/PipelineProofs.glob Pat/PipelineProofs.v.beautified Pat/PipelineProofs.required_vo: Pat/PipelineProofs.v Pat/Syntax.vo Pat/Sem.vo Pat/Matcher.vo Pat/MatcherProofs.vo Pat/Modifiers.vo Pat/ModifiersProofs.vo Pat/Base64.vo Pat/MatchList.vo Pat/MatchListProofs.vo Pat/Atoms.vo Pat/Pipeline.vo
+Pat/PipelineProofs.vio: Pat/PipelineProofs.v Pat/Syntax.vio Pat/Sem.vio Pat/Matcher.vio Pat/MatcherProofs.vio Pat/Modifiers.vio Pat/ModifiersProofs.vio Pat/Base64.vio Pat/MatchList.vio Pat/MatchListProofs.vio Pat/Atoms.vio Pat/Pipeline.vio
+Pat/PipelineProofs.vos Pat/PipelineProofs.vok Pat/PipelineProofs.required_vos: Pat/PipelineProofs.v Pat/Syntax.vos Pat/Sem.vos Pat/Matcher.vos Pat/MatcherProofs.vos Pat/Modifiers.vos Pat/ModifiersProofs.vos Pat/Base64.vos Pat/MatchList.vos Pat/MatchListProofs.vos Pat/Atoms.vos Pat/Pipeline.vos
 Pat/Sem.vo Pat/Sem.glob Pat/Sem.v.beautified Pat/Sem.required_vo: Pat/Sem.v Pat/Syntax.vo
 Pat/Sem.vio: Pat/Sem.v Pat/Syntax.vio
 Pat/Sem.vos Pat/Sem.vok Pat/Sem.required_vos: Pat/Sem.v Pat/Syntax.vos
@@ -409,9 +484,12 @@ Scanner/TrackingCheck.vos Scanner/TrackingCheck.vok Scanner/TrackingCheck.requir
 Scanner/TrackingProofs.vo Scanner/TrackingProofs.glob Scanner/TrackingProofs.v.beautified Scanner/TrackingProofs.required_vo: Scanner/TrackingProofs.v Scanner/PrivIter.vo Scanner/PrivIterProofs.vo Scanner/Tracking.vo Gen/TrackingGen.vo Scanner/Results.vo
 Scanner/TrackingProofs.vio: Scanner/TrackingProofs.v Scanner/PrivIter.vio Scanner/PrivIterProofs.vio Scanner/Tracking.vio Gen/TrackingGen.vio Scanner/Results.vio
 Scanner/TrackingProofs.vos Scanner/TrackingProofs.vok Scanner/TrackingProofs.required_vos: Scanner/TrackingProofs.v Scanner/PrivIter.vos Scanner/PrivIterProofs.vos Scanner/Tracking.vos Gen/TrackingGen.vos Scanner/Results.vos
-Types/StructCheck.vo Types/StructCheck.glob Types/StructCheck.v.beautified Types/StructCheck.required_vo: Types/StructCheck.v Types/StructModel.vo
-Types/StructCheck.vio: Types/StructCheck.v Types/StructModel.vio
-Types/StructCheck.vos Types/StructCheck.vok Types/StructCheck.required_vos: Types/StructCheck.v Types/StructModel.vos
+Types/ProtoSchemaProofs.vo Types/ProtoSchemaProofs.glob Types/ProtoSchemaProofs.v.beautified Types/ProtoSchemaProofs.required_vo: Types/ProtoSchemaProofs.v Types/StructModel.vo Types/StructModelProofs.vo Gen/ProtoSchema.vo Types/StructCheck.vo
+Types/ProtoSchemaProofs.vio: Types/ProtoSchemaProofs.v Types/StructModel.vio Types/StructModelProofs.vio Gen/ProtoSchema.vio Types/StructCheck.vio
+Types/ProtoSchemaProofs.vos Types/ProtoSchemaProofs.vok Types/ProtoSchemaProofs.required_vos: Types/ProtoSchemaProofs.v Types/StructModel.vos Types/StructModelProofs.vos Gen/ProtoSchema.vos Types/StructCheck.vos
+Types/StructCheck.vo Types/StructCheck.glob Types/StructCheck.v.beautified Types/StructCheck.required_vo: Types/StructCheck.v Types/StructModel.vo Gen/ProtoSchema.vo
+Types/StructCheck.vio: Types/StructCheck.v Types/StructModel.vio Gen/ProtoSchema.vio
+Types/StructCheck.vos Types/StructCheck.vok Types/StructCheck.required_vos: Types/StructCheck.v Types/StructModel.vos Gen/ProtoSchema.vos
 Types/StructModel.vo Types/StructModel.glob Types/StructModel.v.beautified Types/StructModel.required_vo: Types/StructModel.v 
 Types/StructModel.vio: Types/StructModel.v 
 Types/StructModel.vos Types/StructModel.vok Types/StructModel.required_vos: Types/StructModel.v 
